@@ -416,7 +416,71 @@ def r2_parallel_bindings(ctx: Ctx):
         raise ShapeError(f'only {checked} bound-value visits found in the FPCore reader')
 
 
+def _inlined(fn: ast.FunctionDef, e: ast.AST) -> ast.AST:
+    """`e` with every local that is assigned exactly once in `fn` replaced by its value (recursively)."""
+    defs: dict[str, list[ast.AST]] = {}
+    for s in walk_no_nested(fn):
+        if isinstance(s, ast.Assign) and len(s.targets) == 1 and isinstance(s.targets[0], ast.Name):
+            defs.setdefault(s.targets[0].id, []).append(s.value)
+    once = {k: v[0] for k, v in defs.items() if len(v) == 1}
+
+    class Sub(ast.NodeTransformer):
+        def __init__(self):
+            self.depth = 0
+
+        def visit_Name(self, n: ast.Name):
+            if isinstance(n.ctx, ast.Load) and n.id in once and self.depth < 8:
+                self.depth += 1
+                try:
+                    return self.visit(ast.parse(ast.unparse(once[n.id]), mode='eval').body)
+                finally:
+                    self.depth -= 1
+            return n
+    return Sub().visit(ast.parse(ast.unparse(e), mode='eval').body)
+
+
+def w1_list_reductions(ctx: Ctx):
+    """`sum(xs)`, `min(xs)`, `max(xs)` are left folds from element 0 in index order in the interpreter (`acc = xs[0]; for x
+    in xs[1:]: acc = acc (+) x`); rounded addition does not associate, so the emitted FPCore loop has to fold in the same
+    order: seeded with `(ref t 0)`, n - 1 trips, trip i combining the accumulator (first operand) with `(ref t (+ i 1))`."""
+    q = '_FPCoreCompileInstance._visit_list_reduce'
+    fn = ctx.fn(BACK, q)
+    rets = [s for s in walk_no_nested(fn) if isinstance(s, ast.Return)]
+    if len(rets) != 1:
+        raise ShapeError('_visit_list_reduce: single return expected')
+    r = _inlined(fn, rets[0].value)
+    shape = isinstance(r, ast.Call) and call_name(r) == 'fpc.Let' and len(r.args) == 2 and isinstance(r.args[1], ast.Call) and call_name(r.args[1]) == 'fpc.For' \
+        and len(r.args[1].args) == 3 and all(isinstance(a, ast.List) and len(a.elts) == 1 and isinstance(a.elts[0], ast.Tuple) for a in r.args[1].args[:2])
+    if not shape:
+        ctx.bad(BACK, rets[0], q, 'the reduction is one `for` with one dimension and one accumulator inside a `let` of the list', f'got {norm(r, 300)}')
+        return
+    loop = r.args[1]
+    (ivar, bound), (acc, init, update), body = loop.args[0].elts[0].elts, loop.args[1].elts[0].elts, loop.args[2]
+    t = norm(r.args[0].elts[0].elts[0]) if isinstance(r.args[0], ast.List) and r.args[0].elts and isinstance(r.args[0].elts[0], ast.Tuple) else '?'
+    tv, iv, av = f'fpc.Var({t})', f'fpc.Var({norm(ivar)})', f'fpc.Var({norm(acc)})'
+    exact = lambda s: f"fpc.Ctx({{'precision': 'integer'}}, {s})"  # noqa: E731
+    ctx.check(norm(init, 300) == f'fpc.Ref({tv}, fpc.Integer(0))', BACK, rets[0], q, 'the fold is seeded with element 0', f'seed {norm(init, 300)}')
+    ctx.check(norm(bound, 300) == exact(f'fpc.Sub(_size0_expr({t}), fpc.Integer(1))'), BACK, rets[0], q, 'n - 1 trips, counted exactly', f'bound {norm(bound, 300)}')
+    nxt = [exact(f'fpc.Add({iv}, fpc.Integer(1))'), exact(f'fpc.Add(fpc.Integer(1), {iv})')]
+    good = isinstance(update, ast.Call) and call_name(update) == 'combine' and len(update.args) == 2 and norm(update.args[0]) == av \
+        and any(norm(update.args[1], 300) == f'fpc.Ref({tv}, {x})' for x in nxt)
+    ctx.check(good, BACK, rets[0], q, 'trip i combines the accumulator (left operand) with element i + 1, index computed exactly',
+              f'update {norm(update, 300)}: another order of a rounded fold gives another sum ([1e16, 1, -1e16, 1] is 1 from the left)')
+    ctx.check(norm(body) == av, BACK, rets[0], q, 'the loop yields the accumulator', f'body {norm(body)}')
+    for m, comb in (('_visit_sum', 'fpc.Add'), ('_visit_amin', 'self._fpc_minimum'), ('_visit_amax', 'self._fpc_maximum')):
+        f = ctx.fn(BACK, f'_FPCoreCompileInstance.{m}')
+        rr = [s for s in walk_no_nested(f) if isinstance(s, ast.Return)]
+        good = len(rr) == 1 and norm(rr[0].value) == f'self._visit_list_reduce(arg, {comb}, ctx)'
+        ctx.check(good, BACK, f, f'_FPCoreCompileInstance.{m}', f'{m[7:]} folds with {comb}', f'got {[norm(x.value) for x in rr]}')
+    for m, comb in (('_visit_min', 'self._fpc_minimum'), ('_visit_max', 'self._fpc_maximum')):
+        f = ctx.fn(BACK, f'_FPCoreCompileInstance.{m}')
+        t = norm(f, 4000)
+        good = f'{m[7:]}_expr = vals[0]' in t and f'for val in vals[1:]: {m[7:]}_expr = {comb}({m[7:]}_expr, val)' in t
+        ctx.check(good, BACK, f, f'_FPCoreCompileInstance.{m}', f'variadic {m[7:]} folds its arguments from the left', 'changed')
+
+
 RULES = [
+    Rule('C12.W1', 'writer: list reductions fold from element 0 in index order, accumulator on the left (the interpreter\'s order)', w1_list_reductions, 9, 'F'),
     Rule('C12.R2', 'reader: in a parallel binding form every bound value is read under the entry scope; only starred forms thread the bindings', r2_parallel_bindings, 6, 'F'),
     Rule('C12.F1', 'writer: a `!` annotation covers the body of its with-block only', f1_annotation_scope, 2, 'F'),
     Rule('C12.T1', 'writer and reader operator/constant tables name the same operations and are mutually inverse', t1_operator_tables, 150, 'T'),
@@ -428,6 +492,16 @@ RULES = [
 from ..selftest import Mutant  # noqa: E402
 
 MUTANTS = [
+    Mutant('reduction-seeded-with-the-last-element', BACK, "                    fpc.Ref(fpc.Var(tuple_id), fpc.Integer(0)),\n                    combine(fpc.Var(accum_id), fpc.Ref(fpc.Var(tuple_id), next_idx))",
+           "                    fpc.Ref(fpc.Var(tuple_id), fpc.Ctx(idx_ctx, fpc.Sub(_size0_expr(tuple_id), fpc.Integer(1)))),\n                    combine(fpc.Var(accum_id), fpc.Ref(fpc.Var(tuple_id), fpc.Var(iter_id)))", 'C12.W1',
+           'seeded change C12c: sum([1e16, 1, -1e16, 1]) is 0 in the compiled core'),
+    Mutant('reduction-accumulator-on-the-right', BACK, "                    combine(fpc.Var(accum_id), fpc.Ref(fpc.Var(tuple_id), next_idx))", "                    combine(fpc.Ref(fpc.Var(tuple_id), next_idx), fpc.Var(accum_id))", 'C12.W1',
+           'minimum / maximum of a signed zero pair and NaN payload order depend on the operand order'),
+    Mutant('reduction-index-rounded', BACK, "        next_idx = fpc.Ctx(idx_ctx, fpc.Add(fpc.Var(iter_id), fpc.Integer(1)))", "        next_idx = fpc.Add(fpc.Var(iter_id), fpc.Integer(1))", 'C12.W1'),
+    Mutant('reduction-one-trip-short', BACK, "                [(iter_id, fpc.Ctx(idx_ctx, fpc.Sub(_size0_expr(tuple_id), fpc.Integer(1))))],\n                [(\n                    accum_id,\n                    fpc.Ref(fpc.Var(tuple_id), fpc.Integer(0)),",
+           "                [(iter_id, fpc.Ctx(idx_ctx, fpc.Sub(_size0_expr(tuple_id), fpc.Integer(2))))],\n                [(\n                    accum_id,\n                    fpc.Ref(fpc.Var(tuple_id), fpc.Integer(0)),", 'C12.W1'),
+    Mutant('amin-folds-with-maximum', BACK, "        return self._visit_list_reduce(arg, self._fpc_minimum, ctx)", "        return self._visit_list_reduce(arg, self._fpc_maximum, ctx)", 'C12.W1'),
+    Mutant('reduction-index-commuted', BACK, "        next_idx = fpc.Ctx(idx_ctx, fpc.Add(fpc.Var(iter_id), fpc.Integer(1)))", "        next_idx = fpc.Ctx(idx_ctx, fpc.Add(fpc.Integer(1), fpc.Var(iter_id)))", 'C12.W1', 'the same index', expect='silent'),
     Mutant('let-read-as-let-star', FRONT, "            val_ctx = _Ctx(env=env, props=ctx.props, stmts=ctx.stmts) if is_star else ctx", "            val_ctx = _Ctx(env=env, props=ctx.props, stmts=ctx.stmts)", 'C12.R2', 'seeded change C12b'),
     Mutant('for-inits-read-sequentially', FRONT, "            init_ctx = _Ctx(init_env if is_star else ctx.env, props=ctx.props, stmts=ctx.stmts)", "            init_ctx = _Ctx(init_env, props=ctx.props, stmts=ctx.stmts)", 'C12.R2'),
     Mutant('continuation-annotated-with-function-context', BACK, "            ctx = fpc.Ctx(dict(self._enclosing_props[-1]), ctx)", "            ctx = fpc.Ctx(dict(self._enclosing_props[0]), ctx)", 'C12.F1',
